@@ -775,6 +775,7 @@ func runC13(c *core.Ctx) core.Meta {
 	checkIntegerWidths(c, "R13.12", "Fields of the code object are compared and used at their stored width.", 5, []widthScope{{rel: instsPkg, filter: inFile(c, "hsaco.go")}}, []string{"narrow", "widen-wrapped", "sign-extend"}, widthAllowC13)
 	checkBoundTestedOnIndexedSlice(c, "R13.13", 1, NewPkgInfo(c, instsPkg), inFile(c, "hsaco.go"))
 	checkRoundedCountsAreRegisters(c)
+	checkScanNotLeftByBreak(c, "R13.15", "loadKernelCodeObjectFromELF looks at every symbol of the table when it collects the kernels: the walk is not left by a break. Stopped at the first undefined symbol, the kernels behind it are not found - what is loaded then depends on unrelated symbols and their order", instsPkg, "loadKernelCodeObjectFromELF", "Symbols()")
 	return core.Meta{Level: "other",
 		Explanation: "Loading decided against an external oracle, the published amd_kernel_code_t and kernel_descriptor_t layouts transcribed as offset/width tables: every metadata read of both parsers and of the header sniffer is compared with its table row (offset, width, slice width, flag bit), bounds of the parsers against what their callers establish, precedence of the V5 descriptor over header sniffing, stripping only under a positive sniff, kernel bytes = the named symbol's range of .text, descriptor selected by name+\".kd\", size 64, inside .rodata.",
 		NotDecided:  "ELF parsing (debug/elf), the rounding arithmetic of the register-count override from metadata symbols (which field is raised from which symbol, and against which field it is compared, is decided by R13.7), the V5 policy overrides of rsrc2 and SGPR enables",
